@@ -3,7 +3,7 @@
    leads from [init] to s; nothing bounds the number of changes, requests, clients or disconnects. *)
 From Coq Require Import List NArith ZArith Bool.
 Import ListNotations.
-Require Import V.C44.Model V.C44.Accept V.C44.Check V.C44.Proofs V.C44.History.
+Require Import V.C44.Model V.C44.Accept V.C44.Check V.C44.Proofs V.C44.History V.C44.Delivered V.C44.Shape.
 Open Scope N_scope.
 
 (* Compile requests are coalesced but never lost: whenever the file content is newer than what the last
@@ -79,6 +79,25 @@ Theorem C44_accepted_history_quiescent :
     exists s, reachable s /\ quiescent s = true /\ (forall c, versions_c s c = recvs c h).
 Proof. exact accepted_history_quiescent. Qed.
 
+(* Clause 11 (the liveness clause as Check.v evaluates it): on every history of the model that ends in a
+   quiescent state without shutdown, every client that was upgraded and has not been disconnected by the
+   harness has the latest written version as its last reception ... *)
+Theorem C44_model_histories_delivered :
+  forall ls s os, project init ls = Some (s, os) -> quiescent s = true -> shutting_down os = false ->
+    delivered_list os = true.
+Proof. exact model_history_delivered. Qed.
+
+(* ... hence on every history the checker accepts: code 11 can only fire together with code 1. *)
+Theorem C44_accepted_history_delivered :
+  forall h w, validate h w = true -> shutting_down h = false -> delivered_b h = true.
+Proof. exact accepted_history_delivered. Qed.
+
+(* The shape of the current watch.go (regenerated into coq/Gen/WatchShape.v on every run) is the one the
+   model transcribes: channel capacities 1 with non-blocking sends, result stored before the clients are
+   signalled, signalling under the clients mutex, result re-read after every wake-up. *)
+Theorem C44_code_shape_as_modelled : shape_c44.
+Proof. exact watch_shape_c44. Qed.
+
 (* non-vacuity: a run with two changes (the second while the first compile is in flight), one client,
    ending quiescent and not shutting down, with the client holding version 3 *)
 Definition example_run : list label :=
@@ -104,6 +123,10 @@ Example C44_project_satisfiable :
     os = [OAttempt 1 false; ORes 1 101; OChange 2; OChange 3; OSignal 1; ORecv 1 2; OSignal 1; ORecv 1 3].
 Proof. eexists. eexists. split; vm_compute; reflexivity. Qed.
 
+Example C44_delivered_satisfiable :
+  exists s os, project init example_run = Some (s, os) /\ quiescent s = true /\ shutting_down os = false.
+Proof. eexists. eexists. split; [vm_compute; reflexivity|]. vm_compute. split; reflexivity. Qed.
+
 Example C44_validate_satisfiable :
   let h := [OAttempt 1 false; ORes 1 101; OChange 2; OSignal 1; ORecv 1 2; OQuiesce] in
   match accept 1000 h with Accepted w => validate h w = true /\ ends_quiescent h = true | _ => False end.
@@ -120,3 +143,6 @@ Print Assumptions C44_model_histories_monotone.
 Print Assumptions C44_model_histories_genuine.
 Print Assumptions C44_accepted_history_safe.
 Print Assumptions C44_accepted_history_quiescent.
+Print Assumptions C44_model_histories_delivered.
+Print Assumptions C44_accepted_history_delivered.
+Print Assumptions C44_code_shape_as_modelled.
